@@ -71,7 +71,7 @@ type Case struct {
 	Dotu        bool       `json:"dotu"` // server Dotu; the client always asks for 9P2000.u
 	Files       []FileSpec `json:"files"`
 	Ops         []Op       `json:"ops"`
-	FinalChunk  uint32     `json:"final_chunk"` // buffer size of the closing sequential whole-file read
+	FinalChunk  uint32     `json:"final_chunk"`    // buffer size of the closing sequential whole-file read
 	Conc        *ConcSpec  `json:"conc,omitempty"` // concurrent scenario (Files/Ops unused), see conc.go
 	Desc        string     `json:"desc,omitempty"`
 }
